@@ -16,6 +16,8 @@ def _mc(off, bug="", depth=3, tdepth=3, every=60, tevery=10, amts=(0, 1, 2, 3)):
 
 
 MODEL = dict(
+    # unbounded amounts and offsets: Apalache shows that no operation lowers the rate (A+1)/(S+P) (thorough tier)
+    proofs=[dict(name="ApaVault", cmd=["lib/apalache.sh", "ApaVault"], tiers=("thorough",))],
     bin="vault",
     trace="Trace_Vault",
     mc=[
